@@ -454,7 +454,10 @@ func reflectConvertRule(c *Ctx, r *Report, fn *ssa.Function, call *ssa.Call, siz
 			}
 		}
 	}
-	what := "reflect Convert"
+	what := "reflect Convert of unknown content"
+	if operand != nil {
+		what = "reflect Convert of " + typeStr(operand.Type())
+	}
 	if nonNumeric != "" {
 		r.Trivial("R03c", name, what, c.Pos(call.Pos()), nonNumeric)
 		return
